@@ -12,6 +12,8 @@ var TextAtoms = []string{
 	"alice", "bob", "host-1.example.com", "10.0.0.7", "::1", "2001:db8::1", "a b", "", "x",
 	`q"uote`, `back\slash`, "<html>&amp;", "tab\there", "nl\nline", "ünï©ødé", "日本語", "😀", " ", "K", "ſ",
 	"{", "}", "[]", ":", ",", "null", "true", "0", "-1", "SUCCESS", "=", "@", "a=b", "u@h",
+	// text that LOOKS like an escape sequence or markup once encoded (backslash is a literal character here)
+	"\\u003c", "\\u0026x", "a\\u003eb", "\\n", "\\\"", "\\\\", "\\", "&lt;", "%s", "%!d(string=x)", "\u2028", "\x7f",
 }
 
 func GenText(r *rand.Rand) string {
